@@ -151,13 +151,33 @@ func (r recStorage) ForEachChannels(ctx context.Context, userID int64, f func(ct
 	return nil
 }
 
-type hasher struct{}
+// hasher is the ChannelAccessHasher: every channel's access hash is known from the start except
+// those of cfg.LateHash, which become known when the engine stores them (from a chats vector).
+type hasher struct{ w *World }
 
-func (hasher) SetChannelAccessHash(ctx context.Context, userID, channelID, accessHash int64) error {
+func (h hasher) SetChannelAccessHash(ctx context.Context, userID, channelID, accessHash int64) error {
+	if accessHash == AccessHash {
+		delete(h.w.hashUnknown, channelID)
+	}
 	return nil
 }
-func (hasher) GetChannelAccessHash(ctx context.Context, userID, channelID int64) (int64, bool, error) {
+func (h hasher) GetChannelAccessHash(ctx context.Context, userID, channelID int64) (int64, bool, error) {
+	if h.w.hashUnknown[channelID] {
+		return 0, false, nil
+	}
 	return AccessHash, true, nil
+}
+
+// userHasher is the UserAccessHasher: no user is known at the start.
+type userHasher struct{ w *World }
+
+func (h userHasher) SetUserAccessHash(ctx context.Context, userID, id, accessHash int64) error {
+	h.w.userKnown[id] = accessHash
+	return nil
+}
+func (h userHasher) GetUserAccessHash(ctx context.Context, userID, id int64) (int64, bool, error) {
+	a, ok := h.w.userKnown[id]
+	return a, ok, nil
 }
 
 // WorldCfg describes a scenario.
@@ -182,6 +202,22 @@ type WorldCfg struct {
 	// Faults: the event "fail j" makes the j-th following StateStorage write (j = 1..3) fail once
 	// with an error (nothing stored); at most one such failure per history.
 	Faults bool `json:"faults,omitempty"`
+	// LateHash lists channel numbers that are in the client's storage (position 0) when it starts
+	// but whose access hash it does not know yet (Manager.loadChannels skips them); every envelope
+	// and channel difference of such a channel carries the full channel in its chats vector, so the
+	// first pushed update makes internalState.handleChannel create the channel state from the
+	// stored position. After a restart (C03) the access hash is known.
+	LateHash []int `json:"late_hash,omitempty"`
+}
+
+// IsLateHash reports whether the channel is stored but its access hash unknown at the start.
+func (c WorldCfg) IsLateHash(ch int64) bool {
+	for _, n := range c.LateHash {
+		if ChanBase+int64(n) == ch {
+			return true
+		}
+	}
+	return false
 }
 
 // IsUntracked reports whether the channel is not known to the client at the start.
@@ -232,13 +268,13 @@ type Delivery struct {
 
 // World is one run of the real engine against the fake server.
 type World struct {
-	Cfg    WorldCfg
-	Srv    *Server
-	Eng    *updates.VerifState
-	Store  Store
-	Trace  []Call
-	Chans  []int64 // tracked channels, id order (grows when the engine starts to follow a channel)
-	All    []int64 // all channels of the log, id order: channel events index this list
+	Cfg   WorldCfg
+	Srv   *Server
+	Eng   *updates.VerifState
+	Store Store
+	Trace []Call
+	Chans []int64 // tracked channels, id order (grows when the engine starts to follow a channel)
+	All   []int64 // all channels of the log, id order: channel events index this list
 	// Contact: for initially untracked channels, the position before the first pushed entry
 	Contact map[string]int
 	parked  chan int64
@@ -250,18 +286,21 @@ type World struct {
 	// when every earlier entry of its sequence had been pushed or served and no later one had
 	pushed  []bool
 	InOrder []bool
-	Seqs   []string
-	Count  []int // deliveries per entry in this run
-	Prior  []int // deliveries per entry in earlier runs (restart)
-	TooLong     map[string]bool // sequences reported too long through the callbacks (this or earlier run)
-	Errs   []string
+	Seqs    []string
+	Count   []int           // deliveries per entry in this run
+	Prior   []int           // deliveries per entry in earlier runs (restart)
+	TooLong map[string]bool // sequences reported too long through the callbacks (this or earlier run)
+	Errs    []string
 	// C01 oracle state
-	Viol      []Violation
-	eventNo   int
-	delivered map[string]map[int]bool // positions delivered per sequence (this run)
-	base      map[string]int          // position of each sequence when the run started
-	evDeliv   []int                   // entries delivered during the current event
-	evAnswers int                     // len(Srv.Answered) at the start of the current event
+	Viol        []Violation
+	eventNo     int
+	delivered   map[string]map[int]bool // positions delivered per sequence (this run)
+	base        map[string]int          // position of each sequence when the run started
+	evDeliv     []int                   // entries delivered during the current event
+	evAnswers   int                     // len(Srv.Answered) at the start of the current event
+	hashUnknown map[int64]bool          // channels whose access hash the client does not know (LateHash)
+	userKnown   map[int64]int64         // UserAccessHasher content
+	startChans  map[int64]int           // stored channel positions when the run started
 }
 
 // Violation of an oracle evaluated while running.
@@ -323,7 +362,7 @@ func FirstContact(cfg WorldCfg, log []Entry, hist []Event) map[string]int {
 				continue
 			}
 			e := log[i]
-			if e.Chan == 0 || !cfg.IsUntracked(e.Chan) {
+			if e.Chan == 0 || !cfg.IsUntracked(e.Chan) || e.Affected() {
 				continue
 			}
 			if p, ok := first[e.Seq]; !ok || e.Start() < p {
@@ -349,8 +388,15 @@ func NewWorld(cfg WorldCfg, store Store, visible int) (*World, error) {
 	w := &World{Cfg: cfg, Store: store.Clone(), Count: make([]int, len(log)), Prior: make([]int, len(log)),
 		TooLong: map[string]bool{}, delivered: map[string]map[int]bool{}, base: map[string]int{},
 		All: LogChannels(log), Contact: map[string]int{}, parked: make(chan int64, 16),
-		pushed: make([]bool, len(log)), InOrder: make([]bool, len(log))}
-	w.Srv = NewServer(cfg.Server, log)
+		pushed: make([]bool, len(log)), InOrder: make([]bool, len(log)),
+		hashUnknown: map[int64]bool{}, userKnown: map[int64]int64{}, startChans: store.Clone().Chans}
+	srvCfg := cfg.Server
+	srvCfg.ChatsFor = append([]int64(nil), srvCfg.ChatsFor...)
+	for _, n := range cfg.LateHash {
+		w.hashUnknown[ChanBase+int64(n)] = true
+		srvCfg.ChatsFor = append(srvCfg.ChatsFor, ChanBase+int64(n))
+	}
+	w.Srv = NewServer(srvCfg, log)
 	w.Srv.Visible = visible
 	w.Srv.OnChanDiff = func(ch int64) {
 		// determinism guard: channelState.sendOut selects between sending to the main loop and
@@ -371,11 +417,12 @@ func NewWorld(cfg WorldCfg, store Store, visible int) (*World, error) {
 		w.Trace = append(w.Trace, c)
 	}
 	eng, err := updates.VerifNewState(updates.VerifConfig{
-		SelfID:  SelfID,
-		API:     w.Srv,
-		Handler: handlerFunc(w.handle),
-		Storage: recStorage{w},
-		Hasher:  hasher{},
+		SelfID:     SelfID,
+		API:        w.Srv,
+		Handler:    handlerFunc(w.handle),
+		Storage:    recStorage{w},
+		Hasher:     hasher{w},
+		UserHasher: userHasher{w},
 		OnTooLong: func() {
 			w.TooLong[SeqPts] = true
 			w.Trace = append(w.Trace, Call{Op: "OnTooLong"})
@@ -436,7 +483,7 @@ func (w *World) handle(ctx context.Context, u tg.UpdatesClass) error {
 		}
 		// C01 (i): every earlier position delivered or covered by a fetched difference
 		for p := 1; p <= e.Start(); p++ {
-			if p <= w.base[e.Seq] || p <= w.Srv.Covered[e.Seq] || w.delivered[e.Seq][p] {
+			if p <= w.base[e.Seq] || w.Srv.IsCovered(e.Seq, p) || w.delivered[e.Seq][p] || w.toldAffected(e.Seq, p) {
 				continue
 			}
 			w.violate("out-of-order:"+e.Class(), "event %d: entry %d (%s, %s %d..%d) delivered although position %d of %s was neither delivered nor covered by a fetched difference",
@@ -454,6 +501,18 @@ func (w *World) handle(ctx context.Context, u tg.UpdatesClass) error {
 		w.evDeliv = append(w.evDeliv, i)
 	}
 	return nil
+}
+
+// toldAffected reports whether position p of sequence s belongs to an own operation whose
+// affected-pts result has been handed to the client: nothing exists that could be delivered for
+// it, so it does not hold back later updates.
+func (w *World) toldAffected(s string, p int) bool {
+	for i, e := range w.Srv.Log {
+		if e.Affected() && e.Seq == s && w.pushed[i] && e.Start() < p && p <= e.End {
+			return true
+		}
+	}
+	return false
 }
 
 // Positions returns the engine's tracked position per sequence.
@@ -494,6 +553,14 @@ func (w *World) step(name string, f func()) {
 					ok = true
 				}
 			}
+			for i, e := range w.Srv.Log {
+				// an own operation whose affected-pts result the client was given: the position
+				// moves to its end when the result is applied (at once or once a gap before it
+				// is filled) although nothing is delivered
+				if e.Affected() && e.Seq == s && e.End == now && w.pushed[i] {
+					ok = true
+				}
+			}
 			for _, a := range w.Srv.Answered[w.evAnswers:] {
 				if a.Seq == s && a.Pts == now || s == SeqQts && a.Seq == SeqPts && a.Qts == now && a.Type != "differenceTooLong" && a.Type != "differenceEmpty" {
 					ok = true
@@ -505,7 +572,7 @@ func (w *World) step(name string, f func()) {
 			}
 		}
 		for p := 1; p <= now; p++ {
-			if p <= w.base[s] || p <= w.Srv.Covered[s] || w.delivered[s][p] {
+			if p <= w.base[s] || w.Srv.IsCovered(s, p) || w.delivered[s][p] || w.toldAffected(s, p) {
 				continue
 			}
 			w.violate("position-skipped:"+seqClass(s), "event %d (%s): tracked %s is %d but position %d was neither delivered nor covered by a fetched difference", w.eventNo, name, s, now, p)
@@ -537,7 +604,7 @@ func (w *World) adopt() {
 			}
 		}
 		for _, c := range w.Eng.Adopt() {
-			if !w.Cfg.IsUntracked(c) {
+			if !w.Cfg.IsUntracked(c) && !w.Cfg.IsLateHash(c) {
 				panic("harness: the engine created a state for a channel that was tracked")
 			}
 			s := ChanSeq(c)
@@ -546,6 +613,10 @@ func (w *World) adopt() {
 			w.Seqs = append(w.Seqs, s)
 			w.delivered[s] = map[int]bool{}
 			w.base[s] = w.Contact[s]
+			if w.Cfg.IsLateHash(c) {
+				// followed from the stored position
+				w.base[s] = w.startChans[c]
+			}
 			restore := w.Eng.ChanHold(c)
 			if err := w.Eng.ChanSubscribe(c); err != nil {
 				w.Errs = append(w.Errs, "subscribe: "+err.Error())
@@ -636,7 +707,7 @@ func (w *World) Enabled(e Event) bool {
 		return e.I < w.Srv.Visible && room
 	case "pushc":
 		for _, i := range e.Set {
-			if i >= w.Srv.Visible {
+			if i >= w.Srv.Visible || w.Srv.Log[i].Affected() {
 				return false
 			}
 		}
@@ -680,6 +751,13 @@ func (w *World) Apply(e Event) {
 		switch e.Op {
 		case "push":
 			w.notePush([]int{e.I})
+			if le := w.Srv.Log[e.I]; le.Affected() {
+				// the result of the client's own RPC: Manager.HandleAffected -> affectedQueue arm
+				if err := w.Eng.MainAffected(le.Chan, le.End, le.Count); err != nil {
+					w.Errs = append(w.Errs, "handleAffected: "+err.Error())
+				}
+				break
+			}
 			push(w.Srv.Push(e.I, w.Cfg.Envelope))
 		case "pushc":
 			w.notePush(e.Set)
@@ -729,7 +807,7 @@ func (w *World) notePush(set []int) {
 	first := map[string]int{}
 	for _, i := range set {
 		e := log[i]
-		if e.Chan != 0 && w.Cfg.IsUntracked(e.Chan) {
+		if e.Chan != 0 && (w.Cfg.IsUntracked(e.Chan) || w.Cfg.IsLateHash(e.Chan)) && !e.Affected() {
 			if p, ok := first[e.Seq]; !ok || e.Start() < p {
 				first[e.Seq] = e.Start()
 			}
@@ -842,7 +920,7 @@ func (w *World) Key() string {
 	}
 	sb.WriteString(" cov")
 	for _, s := range w.Seqs {
-		fmt.Fprintf(&sb, "%d,", w.Srv.Covered[s])
+		fmt.Fprintf(&sb, "%s,", w.Srv.CovKey(s))
 	}
 	for _, s := range w.Seqs {
 		if w.TooLong[s] {
@@ -865,6 +943,20 @@ func (w *World) Key() string {
 			sv := w.Srv.Served[i]
 			fmt.Fprintf(&sb, "%v%v%v,", w.pushed[i], sv.NewMessages > 0, sv.OtherUpdates > 0)
 		}
+	}
+	for i, e := range w.Srv.Log {
+		if e.Affected() {
+			fmt.Fprintf(&sb, " af%d%v", i, w.pushed[i])
+		}
+	}
+	if len(w.Cfg.LateHash) > 0 {
+		for _, c := range w.All {
+			fmt.Fprintf(&sb, " hu%v", w.hashUnknown[c])
+		}
+	}
+	if w.Cfg.Server.Sender != "" || len(w.userKnown) > 0 {
+		_, k := w.userKnown[SenderID]
+		fmt.Fprintf(&sb, " uk%v", k)
 	}
 	fmt.Fprintf(&sb, " f%d%v v%d e%d", w.failArm, w.FailUsed, w.Srv.Visible, len(w.Errs))
 	return sb.String()
@@ -894,6 +986,16 @@ func (w *World) Owed(e Entry) bool {
 		if w.Srv.Served[e.Idx].OtherUpdates == 0 && !w.InOrder[e.Idx] {
 			return false
 		}
+	}
+	if e.Affected() {
+		// an own operation: the client knows it from its RPC result, nothing is owed to the handler
+		return false
+	}
+	if e.Chan != 0 && w.Cfg.IsLateHash(e.Chan) {
+		// stored channel whose access hash was unknown at the start: followed from the stored
+		// position once a pushed update (whose envelope carries the hash) has been seen
+		_, seen := w.Contact[e.Seq]
+		return seen && e.End > w.startChans[e.Chan]
 	}
 	if e.Chan == 0 || !w.Cfg.IsUntracked(e.Chan) {
 		return true
